@@ -14,6 +14,14 @@ b'param'), 'sg': bool (signed, DigestSha256), 'mbf': bool (MustBeFresh), 'nrp': 
 express is awaited that much later), 'php': k (caller-supplied digest placeholder inserted at position k of the name),
 life 0.  Data: 'fp': FreshnessPeriod.  A name component >= 900 stands for the ParametersSha256DigestComponent of an
 Interest with that (ap, sg) on the rest of the name.
+Second hardening round.  Interest spec: 'nf' = how the caller spells the name (NAME_FORMS: URI string - also with
+upper-case hex digests -, list of bytes / bytearray / memoryview / str components, tuple, encoded name in a bytes /
+bytearray / memoryview buffer), 'scr': the caller overwrites its mutable name buffers as soon as express has returned,
+'ip': the Interest parameters are handed over as ONE InterestParam object (`interest_param=`) that the caller changes
+as soon as express has returned and uses again for its next Interest.  Case: 'rx' = buffer class in which the face
+hands packets to the application ('ba' bytearray, 'mv' read-only / 'rwmv' writable memoryview; absent = bytes).
+Event [t, 'xr', {'why': .., spec}] = an express the application must refuse (face down / no validator / parameters
+without signer / a name that is no name): it raises, nothing is pending, nothing is written (a clock tick to the model).
 Events: [t, 'd', k, 'lp'] = the Data arrives wrapped in an LpPacket; [t, 'b', [packet, ..]] = several packets
 (['d', k] / ['n', name, dig, reason]) in ONE loop turn.
 
@@ -183,9 +191,21 @@ def _is_prefix(a, b):
     return len(a) <= len(b) and b[:len(a)] == a
 
 
-def gen_history(rng, fe, n_events=None, p_ap=0.10, p_burst=0.03, p_odd=0.02, p_defer=0.0):
+def spell(rng, s, p_forms, fe):
+    """second hardening round: how the caller spells the name / hands over the Interest parameters"""
+    if rng.random() < p_forms:
+        s['nf'] = rng.choice(NAME_FORMS)
+    if rng.random() < p_forms * 0.6:
+        s['ip'] = True
+    return s
+
+
+def gen_history(rng, fe, n_events=None, p_ap=0.10, p_burst=0.03, p_odd=0.02, p_defer=0.0, p_forms=0.0, p_refuse=0.0):
     """p_ap: share of Interests with ApplicationParameters / a signature; p_burst: share of packet events that are
-    a burst in one loop turn; p_odd: share of Interests with lifetime 0 / no_response"""
+    a burst in one loop turn; p_odd: share of Interests with lifetime 0 / no_response; p_forms: share of Interests
+    whose name is spelled in one of NAME_FORMS / whose parameters are one shared InterestParam object (and of cases in
+    which the face hands over packets in another buffer class); p_refuse: share of events that are an express the
+    application must refuse.  (The last two default to 0 and then draw nothing from rng: C05 shares this generator.)"""
     datas = []
     focus = rng.choice(NAMES[1:6])
     for k in range(rng.randint(2, 4)):
@@ -251,6 +271,8 @@ def gen_history(rng, fe, n_events=None, p_ap=0.10, p_burst=0.03, p_odd=0.02, p_d
             s['life'] = 0
         elif r < p_odd:
             s['nr'] = True                                  # honoured by v2, ignored by the legacy front-end
+        if p_forms:
+            spell(rng, s, p_forms, fe)
         specs.append(s)
         return s
 
@@ -286,7 +308,13 @@ def gen_history(rng, fe, n_events=None, p_ap=0.10, p_burst=0.03, p_odd=0.02, p_d
     while len(evs) < n_ev:
         t += rng.choice([10, 10, 20, 30, 50, 100, 200])
         r = rng.random()
-        if expressed < n_int and (r < 0.35 or expressed < 2):
+        if p_refuse and expressed and rng.random() < p_refuse:
+            base = {'name': rng.choice(specs)['name'] if rng.random() < 0.7 else rng.choice(NAMES),
+                    'cbp': rng.random() < 0.5, 'dig': None, 'life': rng.choice(LIVES), 'verdict': 'PASS', 'lat': 0}
+            if p_forms:
+                spell(rng, base, p_forms, fe)
+            evs.append([t, 'xr', {'why': rng.choice(REFUSALS[fe]), 'spec': base}])
+        elif expressed < n_int and (r < 0.35 or expressed < 2):
             s = new_spec()
             evs.append([t, 'x', s])
             expressed += 1
@@ -322,8 +350,113 @@ def gen_history(rng, fe, n_events=None, p_ap=0.10, p_burst=0.03, p_odd=0.02, p_d
             evs.append([t, 't'])
     t_end = max(t, horizon) + 400
     evs.append([t_end - t_end % 10 + 10, 't'])
-    return {'fe': fe, 'datas': datas, 'events': evs, 'tie': None,
+    case = {'fe': fe, 'datas': datas, 'events': evs, 'tie': None,
             'bad_sig': fe == 'v1' and rng.random() < 0.15}
+    if p_forms and rng.random() < p_forms:
+        case['rx'] = rng.choice(RX_FORMS)
+    return case
+
+
+def gen_crowd(rng, fe, p_forms=0.2):
+    """one crowded node: 3..6 Interests pending at once on ONE name - CanBePrefix and exact, without digest, with the
+    digest of one of two Data of that name, of a longer Data, of no Data - plus Interests on the parent and on a longer
+    name; then Data for exactly the name / longer / much longer / the parent, Nacks naming the name with and without a
+    digest, cancellations, bursts, a rare shutdown.  Both front-ends alike."""
+    N = rng.choice([[1, 2], [1, 3], [6, 2]])
+    child, deep, par = N + [4], N + [4, 7], N[:1]
+    datas = [{'name': N, 'content': 0}, {'name': N, 'content': 1}, {'name': child, 'content': 2},
+             {'name': deep, 'content': 3}, {'name': par, 'content': 4}]
+    verdicts = V2_VERDICTS if fe == 'v2' else V1_VERDICTS
+    specs, evs, t = [], [], 0
+
+    def add(nm, p_cbp, digs):
+        nonlocal t
+        t += 10
+        s = {'name': nm, 'cbp': rng.random() < p_cbp, 'dig': rng.choice(digs),
+             'life': rng.choice([53, 203, 203, 503, 503, 1003, None]),
+             'verdict': 'PASS' if rng.random() < 0.75 else rng.choice(verdicts), 'lat': rng.choice([0, 0, 0, 0, 14, 104])}
+        if fe == 'v1' and rng.random() < 0.15:
+            s['nrp'] = True
+        spell(rng, s, p_forms, fe)
+        specs.append(s)
+        evs.append([t, 'x', s])
+    order = ['N'] * rng.randint(3, 6) + ['P'] * rng.choice([0, 0, 1, 2]) + ['C'] * rng.choice([0, 0, 1, 2])
+    rng.shuffle(order)
+    for o in order:
+        if o == 'N':
+            add(N, 0.5, [None, None, None, None, 0, 0, 1, 2, 3, -1])
+        elif o == 'P':
+            add(par, 0.8, [None, None, None, 4, 0, -1])
+        else:
+            add(child, 0.5, [None, None, 2, 3, -1])
+
+    def pkt():
+        r = rng.random()
+        if r < 0.7:
+            q = ['d', rng.choice([0, 0, 1, 1, 2, 2, 3, 4])]
+            if rng.random() < 0.12:
+                q.append('lp')
+            return q
+        s = rng.choice(specs)
+        dig = s['dig'] if rng.random() < 0.6 else rng.choice([None, None, 0, 1, -1])
+        reason = rng.choice(NACK_REASONS) if rng.random() < 0.85 else rng.choice(NACK_ODD)
+        return ['n', s['name'], dig, reason]
+    for _ in range(rng.randint(3, 8)):
+        t += rng.choice([10, 10, 20, 30, 50, 100])
+        r = rng.random()
+        if r < 0.62:
+            evs.append([t] + pkt())
+        elif r < 0.74:
+            evs.append([t, 'b', [pkt() for _ in range(rng.randint(2, 3))]])
+        elif r < 0.9:
+            evs.append([t, 'c', rng.randrange(len(specs))])
+        elif r < 0.96:
+            evs.append([t, 't'])
+        else:
+            evs.append([t, 's'])
+    evs.append([t + 4600 - t % 10, 't'])
+    case = {'fe': fe, 'datas': datas, 'events': evs, 'tie': None, 'bad_sig': False}
+    if rng.random() < p_forms:
+        case['rx'] = rng.choice(RX_FORMS)
+    return case
+
+
+import os
+REUSE_FULL = bool(os.environ.get('VERIF_C03_REUSE_FULL'))      # include what the findings below are about
+
+
+def gen_reuse(rng, fe):
+    """a caller that builds its names in buffers it reuses: 2..4 Interests whose names are given in mutable buffers
+    (bytearray components / views of them / an encoded name in a bytearray) that are overwritten as soon as express has
+    returned; every one of them is then answered - by its Data or by a Nack - well inside its lifetime.
+    (Kept out of this stream, both reported as findings of the unchanged library, candidate_fixes/C03-caller-buffers-
+    aliased: an Interest with an implicit digest given in a reused buffer - the pending entry keeps a view of the
+    caller's digest bytes and can no longer be satisfied -, and a reused buffer whose Interest ends by timeout or
+    cancellation - the clean-up looks the node up under the overwritten name and leaves an empty node behind.)"""
+    base = rng.choice([[1], [1, 2], [6]])
+    n = rng.randint(2, 4)
+    names = [base + [2 + i] for i in range(n)] if rng.random() < 0.7 else [base] * n
+    datas = [{'name': nm + ([4] if rng.random() < 0.3 else []), 'content': i} for i, nm in enumerate(names)]
+    evs, t = [], 0
+    for i, nm in enumerate(names):
+        t += 10
+        evs.append([t, 'x', {'name': nm, 'cbp': len(datas[i]['name']) > len(nm) or rng.random() < 0.3,
+                             'dig': i if REUSE_FULL and rng.random() < 0.3 else None,
+                             'life': 103 if REUSE_FULL and rng.random() < 0.3 else 503, 'verdict': 'PASS', 'lat': 0,
+                             'nf': rng.choice(MUTABLE_FORMS), 'scr': True}])
+        if rng.random() < 0.3:
+            evs[-1][2]['ip'] = True
+    order = list(range(n))
+    rng.shuffle(order)
+    for i in order:
+        t += rng.choice([10, 20, 50])
+        s = evs[i][2]
+        if rng.random() < 0.8:
+            evs.append([t, 'd', i])
+        else:
+            evs.append([t, 'n', s['name'], s['dig'], rng.choice(NACK_REASONS)])
+    evs.append([t + 1000 - t % 10, 't'])
+    return {'fe': fe, 'datas': datas, 'events': evs, 'tie': None, 'bad_sig': False}
 
 
 TIE_ORDERS = {'timer': ['packet-first', 'packet-last'],
@@ -374,6 +507,15 @@ def cases(rng, tier):
         yield gen_history(rng, 'v2' if k % 2 == 0 else 'v1', p_ap=0.1, p_burst=0.7, p_odd=0.25)
     for k in range(200 if tier == 'quick' else 3000):
         yield gen_history(rng, 'v2' if k % 2 == 0 else 'v1', p_ap=0.05, p_burst=0.03, p_odd=0.0, p_defer=0.5)
+    # second hardening round: spellings of the name / shared InterestParam / buffer class of received packets /
+    # refused expresses; a crowded node on either front-end; reused name buffers
+    for k in range(400 if tier == 'quick' else 6000):
+        yield gen_history(rng, 'v2' if k % 2 == 0 else 'v1', p_ap=0.15, p_burst=0.1, p_odd=0.05, p_defer=0.1,
+                          p_forms=0.5, p_refuse=0.12)
+    for k in range(600 if tier == 'quick' else 10000):
+        yield gen_crowd(rng, 'v1' if k % 2 == 0 else 'v2')
+    for k in range(150 if tier == 'quick' else 2000):
+        yield gen_reuse(rng, 'v1' if k % 2 == 0 else 'v2')
     if tier == 'thorough':
         # all histories of <= 5 events over a two-Interest alphabet (same name), both front-ends
         import itertools
@@ -421,6 +563,8 @@ def shrink(case):
         return c
     if case.get('bad_sig'):
         yield mk(evs, bad_sig=False)
+    if case.get('rx'):
+        yield {k: v for k, v in mk(evs).items() if k != 'rx'}
     if case.get('tie') is None:
         for j in range(_n_int(evs)):
             yield mk(_drop_interest(evs, j))
@@ -436,7 +580,7 @@ def shrink(case):
             yield mk(evs[:i] + [e[:3]] + evs[i + 1:])
         if e[1] == 'x':
             s = e[2]
-            for key in ('mbf', 'nrp', 'nr', 'defer'):
+            for key in ('mbf', 'nrp', 'nr', 'defer', 'nf', 'scr', 'ip'):
                 if s.get(key):
                     yield mk(evs[:i] + [[e[0], 'x', {k: v for k, v in s.items() if k != key}]] + evs[i + 1:])
             for key, simple in (('lat', 0), ('verdict', 'PASS'), ('dig', None), ('cbp', False)):
@@ -536,6 +680,52 @@ def mk_nack(enc, ndnlp, interest_wire, reason):
     return bytes(pkt.encode())
 
 
+NAME_FORMS = ['uri', 'uri-uc', 'bytes', 'ba', 'mv', 'rwmv', 'tuple', 'mixed', 'wire', 'wire-ba', 'wire-mv', 'wire-rwmv']
+MUTABLE_FORMS = ['ba', 'rwmv', 'wire-ba', 'wire-rwmv']
+REFUSALS = {'v2': ['down', 'noval', 'nosigner', 'badname', 'badcomp'], 'v1': ['down', 'badname', 'badcomp']}
+RX_FORMS = ['ba', 'mv', 'rwmv']
+
+
+def name_form(enc, nm, how):
+    """the caller-side object for the name `nm` (list of encoded components); returns (object, mutable buffers)"""
+    import re
+    comps = [bytes(c) for c in nm]
+    if how is None:
+        return nm, []
+    if how in ('uri', 'uri-uc'):
+        u = enc.Name.to_str(comps)
+        if how == 'uri-uc':
+            u = re.sub(r'(sha256digest=|params-sha256=)([0-9a-f]+)', lambda m: m.group(1) + m.group(2).upper(), u)
+        return u, []
+    if how == 'bytes':
+        return comps, []
+    if how == 'ba':
+        bas = [bytearray(c) for c in comps]
+        return bas, bas
+    if how == 'mv':
+        return [memoryview(c) for c in comps], []
+    if how == 'rwmv':
+        bas = [bytearray(c) for c in comps]
+        return [memoryview(b) for b in bas], bas
+    if how == 'tuple':
+        return tuple(comps), []
+    if how == 'mixed':
+        # generic components as text (a str element of a list is the component's text, not its URI form)
+        return [bytes(enc.Component.get_value(c)).decode() if i % 2 == 0 and enc.Component.get_type(c) == 8 else c
+                for i, c in enumerate(comps)], []
+    wire = bytes(enc.Name.to_bytes(comps))
+    if how == 'wire':
+        return wire, []
+    if how == 'wire-mv':
+        return memoryview(wire), []
+    ba = bytearray(wire)
+    if how == 'wire-ba':
+        return ba, [ba]
+    if how == 'wire-rwmv':
+        return memoryview(ba), [ba]
+    raise ValueError(how)
+
+
 class Run:
     """one history on a fresh application; shared with C05"""
 
@@ -587,18 +777,25 @@ class Run:
             return V1_TRUTH[verdict]
         return v1
 
-    def express(self, spec):
+    def express_args(self, spec, i):
+        """(name object, mutable buffers of the caller, keyword arguments) of the express call for `spec`"""
         enc, _, _, Signer = _lib()
-        i = len(self.tasks)
         comps = list(spec['name'])
         nm = mk_name(enc, comps)
         if spec.get('php') is not None:
             nm.insert(spec['php'], enc.Component.from_bytes(bytes(32), enc.Component.TYPE_PARAMETERS_SHA256))
         if spec['dig'] is not None:
             nm.append(enc.Component.from_bytes(self.digest_of(spec['dig']), enc.Component.TYPE_IMPLICIT_SHA256))
+        nm, scribble = name_form(enc, nm, spec.get('nf'))
         kw = {'lifetime': spec['life'], 'can_be_prefix': spec['cbp'], 'nonce': 1000 + i}
         if spec.get('mbf'):
             kw['must_be_fresh'] = True
+        if spec.get('ip'):
+            # the caller keeps ONE InterestParam object for all its Interests and passes it as `interest_param=`
+            ip = self.shared_ip = self.shared_ip or enc.InterestParam()
+            ip.lifetime, ip.can_be_prefix, ip.nonce = spec['life'], spec['cbp'], 1000 + i
+            ip.must_be_fresh = bool(spec.get('mbf'))
+            kw = {'interest_param': ip}
         ap = AP_BYTES[spec.get('ap')]
         if self.fe == 'v2':
             if ap is not None:
@@ -614,6 +811,20 @@ class Run:
                 kw['signer'] = Signer()
             if spec.get('nrp'):
                 kw['need_raw_packet'] = True
+        return nm, scribble, kw
+
+    def after_express(self, spec, scribble):
+        """what the caller does as soon as express has returned: reuse its buffers / its InterestParam object"""
+        if spec.get('scr'):
+            for b in scribble:
+                b[:] = b'\xff' * len(b)
+        if spec.get('ip') and self.shared_ip is not None:
+            ip = self.shared_ip
+            ip.can_be_prefix, ip.must_be_fresh, ip.lifetime, ip.nonce = not spec['cbp'], not spec.get('mbf'), 7, 1
+
+    def express(self, spec):
+        i = len(self.tasks)
+        nm, scribble, kw = self.express_args(spec, i)
         app, val = self.rig.app, self.validator(i, spec)
         self.specs.append(spec)
         if spec.get('nr') and self.fe == 'v1':
@@ -628,26 +839,70 @@ class Run:
             except Exception as e:       # noqa
                 self.noresp[i] = ['internal', type(e).__name__, self.now()]
             self.tasks.append(None)
+            self.after_express(spec, scribble)
             return
 
         if spec.get('defer'):
             # the Interest is sent now; what express returned is awaited later (see await_deferred)
-            if self.fe == 'v2':
-                co = self.rig.loop.call_now(lambda: app.express(nm, val, **kw))
-            else:
-                co = self.rig.loop.call_now(lambda: app.express_interest(nm, validator=val, **kw))
+            try:
+                if self.fe == 'v2':
+                    co = self.rig.loop.call_now(lambda: app.express(nm, val, **kw))
+                else:
+                    co = self.rig.loop.call_now(lambda: app.express_interest(nm, validator=val, **kw))
+            except Exception as e:       # noqa  (express itself failed: the Interest ends with that internal error)
+                async def co(e=e):
+                    raise e
+                co = co()
             self.tasks.append(None)
             self.deferred.append([self.now() + spec['defer'], i, co])
+            self.after_express(spec, scribble)
             return
 
         async def go():
             if self.fe == 'v2':
-                return await app.express(nm, val, **kw)
-            return await app.express_interest(nm, validator=val, **kw)
+                co = app.express(nm, val, **kw)
+            else:
+                co = app.express_interest(nm, validator=val, **kw)
+            self.after_express(spec, scribble)
+            return await co
         task = self.rig.loop.create_task(go())
         self.tasks.append(task)
         task.add_done_callback(lambda _t, i=i: self.done_at.__setitem__(i, self.now()))
         self.rig.loop.settle()
+
+    def refuse(self, ev):
+        """an express the application must refuse: whatever it does, it is recorded"""
+        _, types, _, Signer = _lib()
+        why, spec = ev['why'], ev['spec']
+        app, loop, face = self.rig.app, self.rig.loop, self.rig.face
+        nm, scribble, kw = self.express_args(spec, 900 + len(self.refused))
+
+        async def val(*a):
+            return types.ValidResult.PASS if self.fe == 'v2' else True
+        if why == 'noval':
+            val = None
+        elif why == 'nosigner':
+            kw['app_param'] = b'param'
+            kw.pop('signer', None)
+        elif why == 'badname':
+            nm = 42
+        elif why == 'badcomp':
+            nm = list(nm) + [3.5] if isinstance(nm, (list, tuple)) else [nm, 3.5]
+        if why == 'down':
+            face.running = False
+        try:
+            if self.fe == 'v2':
+                r = loop.call_now(lambda: app.express(nm, val, **kw))
+            else:
+                r = loop.call_now(lambda: app.express_interest(nm, validator=val, **kw))
+            res = 'accepted'
+            if asyncio.iscoroutine(r):
+                r.close()
+        except Exception as e:       # noqa
+            res = type(e).__name__
+        finally:
+            face.running = True
+        self.refused.append([why, res])
 
     def await_deferred(self, upto):
         """start awaiting every deferred Interest whose time has come (at or before `upto` ms)"""
@@ -721,7 +976,10 @@ class Run:
     def receive(self, wire):
         """hand one packet to the application as the stream / UDP faces do (one task per packet, not awaited by
         anybody); the task is kept so that whatever escapes it is seen"""
-        t = self.rig.loop.create_task(self.rig.face.callback(self.rig._typ(wire), wire))
+        rx = self.case.get('rx')
+        buf = wire if rx is None else bytearray(wire) if rx == 'ba' else memoryview(wire) if rx == 'mv' else \
+            memoryview(bytearray(wire))
+        t = self.rig.loop.create_task(self.rig.face.callback(self.rig._typ(wire), buf))
         self.rx_tasks.append(t)
         return t
 
@@ -789,6 +1047,8 @@ class Run:
             self.noresp = {}
             self.deferred = []
             self.rx_tasks = []
+            self.shared_ip = None
+            self.refused = []
             tie = case.get('tie')
             tie_done = False
             for ev in case['events']:
@@ -800,6 +1060,8 @@ class Run:
                 k = ev[1]
                 if k == 'x':
                     self.express(ev[2])
+                elif k == 'xr':
+                    self.refuse(ev[2])
                 elif k == 'd':
                     if ev[2] < len(self.wires):
                         self.receive(self.packet(ev[1:]))
@@ -829,6 +1091,8 @@ class Run:
                    'sent': len(rig.face.sent),
                    'vcalls': sorted(self.vcalls), 'loop_errors': [list(e) for e in self.internal_errors()],
                    'receive_raised': receive_raised}
+            if self.refused:
+                res['refused'] = self.refused
             self.finish(res)
             return res
 
@@ -1252,6 +1516,23 @@ def tags(case, impl):
         for q in ([e[1:]] if e[1] == 'n' else [q for q in e[2] if q[0] == 'n'] if e[1] == 'b' else []):
             if q[3] not in NACK_REASONS:
                 t.append('nack-reason-odd')
+    if case.get('rx'):
+        t.append('rx:' + case['rx'])
+    for w, r in impl.get('refused', []):
+        t.append('refused:%s:%s' % (w, r))
+    groups = {}
+    for s in specs:
+        groups.setdefault(tuple(eff_name(s)), []).append(s)
+    big = max((len(g) for g in groups.values()), default=0)
+    t.append('same-name-max:%s' % (big if big < 3 else '3+'))
+    if any(len({(bool(x['cbp']), x['dig'] is not None) for x in g}) >= 3 for g in groups.values()):
+        t.append('mixed-node')
+    for s in specs:
+        if s.get('nf'):
+            t.append('nf:' + s['nf'])
+        for key in ('ip', 'scr'):
+            if s.get(key):
+                t.append(key)
     for s in specs:
         if has_pd(s):
             t.append('params:%s%s' % (s.get('ap') or '-', 'S' if s.get('sg') else ''))
